@@ -78,6 +78,8 @@ func (rn *runner) runCase(c *Case) {
 	switch c.Fam {
 	case "", "router":
 		rn.runRouterCase(c)
+	case "head":
+		rn.runHeadCase(c)
 	default:
 		fmt.Fprintln(os.Stderr, "unknown family", c.Fam)
 		os.Exit(2)
